@@ -47,7 +47,8 @@ def gen_sequence(rng, fam, res, thorough):
     maxl = 15000 if res == "gac" else 65535
     kind = rng.choice(["clean", "gaps", "corrupt", "corrupt", "corrupt", "corrupt-many", "garbage", "wrap", "late-start",
                        "zeros", "first-corrupt", "top-of-range", "top-of-range"])
-    n = rng.choice([1, 2, 3, 7, 60, 120, 400, 1500] + ([3000, 9000, 14000] if thorough else []))
+    # the model's median is a (kernel-evaluable) insertion sort, quadratic in the length: long sequences are rare
+    n = rng.choice([1, 2, 3, 7, 60, 120, 400, 1500] * 3 + ([3000, 3000, 9000, 14000] if thorough else []))
     hi = min(maxl - 1, 32767 if fam == "pod" else 65535)
     n = min(n, hi - 2)
     n0 = rng.choice([1, 1, 1, 2, 5, 100, rng.randint(1, max(1, hi - n - 1))])
@@ -190,7 +191,7 @@ def run(ctx):
     drv = []
     for fmt, nums, info in named_cases():
         run_seq(ctx, fmt, [x & 0xFFFF for x in nums], dict(info, exact_clause=info.get("exact_clause", False)), drv)
-    nrand = ctx.n(160, 1500)
+    nrand = ctx.n(160, 700)
     for i in range(nrand):
         fmt = ("klmGac", "podGac", "klmLac", "podLac")[i % 4]
         f = filegen.FMT[fmt]
